@@ -19,7 +19,12 @@ def format_classes(ctx):
     fd = commits.file_dumper(ctx)
     pd = fd.methods.get('process_datapackage')
     out = {}
-    for d in ast.walk(pd.node):
+    dicts = [d for d in ast.walk(pd.node) if isinstance(d, ast.Dict)]
+    # the built-in format map may also be a class-level constant of the dumper
+    for st in fd.node.body:
+        if isinstance(st, ast.Assign) and isinstance(st.value, ast.Dict):
+            dicts.append(st.value)
+    for d in dicts:
         if isinstance(d, ast.Dict):
             for k, v in zip(d.keys, d.values):
                 if isinstance(k, ast.Constant) and k.value in ('csv', 'json') and isinstance(v, ast.Name):
@@ -74,7 +79,7 @@ def check(ctx):
     names = [x.arg for x in a.args]
     if 'default_serializer' in names:
         dflt = a.defaults[names.index('default_serializer') - (len(names) - len(a.defaults))]
-    csv_init = c.methods.get('__init__')
+    csv_init = ctx.N(c.methods.get('__init__')) if c.methods.get('__init__') else None
     passes = [k for n in ast.walk(csv_init.node) if isinstance(n, ast.Call) for k in n.keywords if k.arg == 'default_serializer'] \
         if csv_init else []
     run.check(isinstance(dflt, ast.Name) and dflt.id == 'str' and not passes, 'R16v', init.where, base.qualname,
